@@ -84,6 +84,18 @@ def analyse_C02(cases, rep):
         impl_str = F.vals(c.out('strides'))
         diffs = []
         for (op, arg), xi, xm in zip(c.ops, c.impl, c.model):
+            if op == 'dflt':
+                rep.cov['evaluations'] += 1
+                if xi != xm: diffs.append(dict(op=op, impl=xi, model=xm))
+                if xi.startswith('ok e='):
+                    d = dict(x.split('=') for x in xi[3:].split()); es = [] if d['e'] == '-' else [int(v) for v in d['e'].split(',')]
+                    got = [] if d['s'] == '-' else [int(v) for v in d['s'].split(',')]
+                    if c.kind in ('stride', 'right'): want = [C.prod(es[k + 1:]) for k in range(len(es))]
+                    elif c.kind == 'left': want = [C.prod(es[:k]) for k in range(len(es))]
+                    else: want = None
+                    if want is not None and C.prod([max(e, 1) for e in es]) <= C.hi(c.T) and got != want:
+                        rep.violation(payload(c, kind='default-constructed-mapping-does-not-have-the-%s-strides-of-its-default-extents' % ('row-major' if c.kind != 'left' else 'column-major'), impl=xi, specified=want)); break
+                continue
             if op not in ('off', 'stride', 'strides', 'stridesarr'): continue
             rep.cov['evaluations'] += 1
             if xi != xm: diffs.append(dict(op=op, arg=arg, impl=xi, model=xm))
